@@ -260,10 +260,19 @@ def format_source(code: str, *, line_length: int = _LINE_LENGTH) -> str:
     installed only the runtime must still be able to generate code. An
     unformatted module is a cosmetic problem, a failed generation is not.
     """
+    # 🛡️ `python -m` puts the working directory first on the child's
+    #    sys.path. Code is usually generated INTO that directory, so a machine
+    #    called "Token" or "json" leaves a token.py / json.py there that
+    #    shadows the standard library for black: it crashed, the module was
+    #    written unformatted, and regenerating unchanged JSON produced
+    #    different bytes than the first run. `-P` (3.11+) keeps the working
+    #    directory off the path.
+    safe_path = ["-P"] if sys.version_info >= (3, 11) else []
     try:
         result = subprocess.run(
             [
                 sys.executable,
+                *safe_path,
                 "-m",
                 "black",
                 "--quiet",
